@@ -13,7 +13,7 @@ from ..ctx import canon
 from . import _align_common as ac
 
 TITLE = "Seeded results are reproducible under any thread schedule"
-DECIDING = ["M-EXEC", "M-REPRO", "M-HASHSEED", "M-REPEAT"]
+DECIDING = ["M-EXEC", "M-REPRO", "M-HASHSEED", "M-REPEAT", "M-HISTORY"]
 LEVEL = "exploration"
 RULE = ("a scenario = (continuum, dissimilarity, sampler, mode, n_samples, precision, ground-truth subset given as an "
         "unsorted list or a set, numpy seed); its result vector "
@@ -24,7 +24,8 @@ RULE = ("a scenario = (continuum, dissimilarity, sampler, mode, n_samples, preci
         "free running with 0-5 ms jitter under sys.setswitchinterval(1e-5); the genuine ThreadPoolExecutor with "
         "os.cpu_count patched; GIL hand-offs injected (sys.monitoring LINE events) at random statement boundaries of the "
         "library's Python code inside the jobs; every run builds fresh continuum / dissimilarity objects, and two extra runs "
-        "repeat the computation on the very objects of the reference run; one scenario in seven is large and sparse enough "
+        "repeat the computation on the very objects of the reference run, one repeats it with a sampler object that has just served another call "
+        "(explicit ground truth) on the same continuum, one repeats it after a CBC failure injected into an unrelated alignment; one scenario in seven is large and sparse enough "
         "for the fast mode to record a finite window, one has all annotators identical (observed disorder 0), one is crowded "
         "(4-5 annotators with two long units each: the shuffle sampler runs out of free pivot zones), one asks for a precision "
         "that triggers a second batch after a first batch of 5-30 samples (worker counts 1,2,3,4,5,8,16); plus plain repetition in the same process; results must be bit-identical.  A set of "
@@ -72,7 +73,7 @@ def make_sampler(name):
     return pa.ShuffleContinuumSampler("int_pivot" if name == "shuffle_int" else "float_pivot")
 
 
-def result_vector(ctx, sc, policy, workers, sched_seed, objects=None):
+def result_vector(ctx, sc, policy, workers, sched_seed, objects=None, sampler_obj=None):
     """Run the scenario under one schedule; returns (digest, values, executor records, rng draws off the main thread).
     Every run gets FRESH objects (continuum, dissimilarity) unless `objects` hands over the ones of an earlier run -
     then the run is a repetition on the same objects."""
@@ -114,7 +115,7 @@ def result_vector(ctx, sc, policy, workers, sched_seed, objects=None):
                 gt = set(gt) if sc.get("ground_truth_as") == "set" else list(gt)
             res = continuum.compute_gamma(dissim, n_samples=sc["n_samples"], precision_level=sc["precision"],
                                           ground_truth_annotators=gt,
-                                          sampler=make_sampler(sc["sampler"]), fast=sc["mode"] == "fast",
+                                          sampler=sampler_obj if sampler_obj is not None else make_sampler(sc["sampler"]), fast=sc["mode"] == "fast",
                                           soft=sc["mode"] == "soft")
             vals = [float(res.observed_disorder)] + [float(a.disorder) for a in res.chance_alignments] + [float(res.gamma)]
             if sc["dissim"]["kind"] == "combined":
@@ -220,13 +221,34 @@ def check_case(ctx, case):
     schedules = [list(x) for x in case["schedules"]]
     # plain repetition on the very same continuum and dissimilarity objects (first in order, then under a held schedule)
     schedules = [["repeat-same-objects:fifo", 1, 0], ["repeat-same-objects:lifo", 3, 1]] + schedules
+    # what happened earlier in the process must not matter either: the same sampler object served another call (with an explicit
+    # ground truth) on the same continuum; a solver failure occurred in an unrelated computation
+    schedules = schedules[:3] + [["history:same-sampler-after-a-call-with-ground-truth", 2, 5], ["history:after-a-transient-solver-failure", 2, 6]] + schedules[3:]
     spare = None
     for k_run, (policy, workers, sseed) in enumerate(schedules):
         if k_run >= 4 and ctx.out_of_time():
             ctx.observe("schedules_dropped_for_time", "scenarios")      # a slow scenario: the remaining schedules are not run
             break
         try:
-            if policy.startswith("repeat-same-objects:"):
+            if policy == "history:same-sampler-after-a-call-with-ground-truth":
+                ctx.count("M-HISTORY")
+                sampler_obj = make_sampler(sc["sampler"])
+                d0, c0 = ref_objects
+                np.random.seed(4242)
+                c0.compute_gamma(d0, n_samples=2, ground_truth_annotators=sorted(c0.annotators)[-2:], sampler=sampler_obj,
+                                 fast=sc["mode"] == "fast", soft=sc["mode"] == "soft")
+                dig, vals, recs, off = result_vector(ctx, sc, "fifo", workers, sseed, objects=ref_objects, sampler_obj=sampler_obj)
+            elif policy == "history:after-a-transient-solver-failure":
+                ctx.count("M-HISTORY")
+                spy_, pool_ = ac.setup(ctx)
+                other = cases.build_continuum({"ann": {"p": [[0.0, 2.0, "a"], [3.0, 5.0, "b"]], "q": [[0.0, 2.5, "a"], [3.5, 5.0, "b"]]}})
+                spy_.fail_cbc = True
+                try:
+                    other.get_best_alignment(pool_.get({"kind": "positional", "delta": 1.0}))
+                finally:
+                    spy_.fail_cbc = False
+                dig, vals, recs, off = result_vector(ctx, sc, "fifo", workers, sseed)
+            elif policy.startswith("repeat-same-objects:"):
                 ctx.count("M-REPEAT")
                 dig, vals, recs, off = result_vector(ctx, sc, policy.split(":")[1], workers, sseed, objects=ref_objects)
             elif k_run < 5 or spare is None:
